@@ -266,6 +266,32 @@ func checkPredefs(c *Ctx, ev *evaluator) {
 func checkBookkeeping(c *Ctx) {
 	sp := c.Pkg("internal/ebnf/parser/spec")
 	info := sp.TypesInfo
+	// by role, not by name: the entry type is the struct of the package with a field whose type is a slice of pointers to the
+	// exported definition type; that field holds the definitions
+	defsField, entryType := "", ""
+	for _, n := range sp.Types.Scope().Names() {
+		tn, ok := sp.Types.Scope().Lookup(n).(*types.TypeName)
+		if !ok {
+			continue
+		}
+		st, ok := tn.Type().Underlying().(*types.Struct)
+		if !ok {
+			continue
+		}
+		for i := 0; i < st.NumFields(); i++ {
+			if sl, ok := st.Field(i).Type().Underlying().(*types.Slice); ok {
+				if pt, ok := sl.Elem().(*types.Pointer); ok {
+					if _, nme := namedTypeName(pt.Elem()); nme == "TerminalDef" && !tn.Exported() {
+						defsField, entryType = st.Field(i).Name(), tn.Name()
+					}
+				}
+			}
+		}
+	}
+	if defsField == "" {
+		c.Lost("R7.3", "the symbol-table entry type that holds a terminal's definitions")
+		return
+	}
 	// appendDefs: number of top-level (unconditional) `e.definitions = append(e.definitions, &TerminalDef{...})` and the literal
 	type addFn struct {
 		name      string
@@ -300,7 +326,7 @@ func checkBookkeeping(c *Ctx) {
 				continue
 			}
 			if id, ok := call.Fun.(*ast.Ident); ok && id.Name == "append" && len(call.Args) == 2 {
-				if sel, ok := ast.Unparen(as.Lhs[0]).(*ast.SelectorExpr); ok && sel.Sel.Name == "definitions" {
+				if sel, ok := ast.Unparen(as.Lhs[0]).(*ast.SelectorExpr); ok && sel.Sel.Name == defsField {
 					apps++
 					x := ast.Unparen(call.Args[1])
 					if u, ok := x.(*ast.UnaryExpr); ok {
@@ -314,7 +340,7 @@ func checkBookkeeping(c *Ctx) {
 		condApps := 0
 		ast.Inspect(fd.Body, func(n ast.Node) bool {
 			if as, ok := n.(*ast.AssignStmt); ok && len(as.Lhs) == 1 {
-				if sel, ok := ast.Unparen(as.Lhs[0]).(*ast.SelectorExpr); ok && sel.Sel.Name == "definitions" {
+				if sel, ok := ast.Unparen(as.Lhs[0]).(*ast.SelectorExpr); ok && sel.Sel.Name == defsField {
 					condApps++
 				}
 			}
@@ -345,11 +371,11 @@ func checkBookkeeping(c *Ctx) {
 			if !ok {
 				return true
 			}
-			if _, nme := namedTypeName(info.TypeOf(cl)); nme != "terminalEntry" {
+			if _, nme := namedTypeName(info.TypeOf(cl)); nme != entryType {
 				return true
 			}
 			fs, _ := compositeFields(cl)
-			d, ok := ast.Unparen(fs["definitions"]).(*ast.CompositeLit)
+			d, ok := ast.Unparen(fs[defsField]).(*ast.CompositeLit)
 			if !ok {
 				c.Fail("R7.3", a.name+": new entries initialise definitions with a literal", cl.Pos(), "definitions is not a literal list")
 				return true
@@ -399,8 +425,42 @@ func checkBookkeeping(c *Ctx) {
 			return true
 		})
 	}
-	// ensureSingleDefs reports both count == 0 and count > 1
-	if fd := FuncDecl(sp, "SymbolTable", "ensureSingleDefs"); fd != nil {
+	// the single-definition helper reports both count == 0 and count > 1: the parameterless error-returning method of the
+	// symbol table that compares the number of definitions with constants
+	var single *ast.FuncDecl
+	AllFuncDecls(sp, func(fd *ast.FuncDecl) {
+		if fd.Recv == nil || fd.Body == nil || recvName(fd.Recv.List[0].Type) != "SymbolTable" || single != nil {
+			return
+		}
+		fo := info.Defs[fd.Name].(*types.Func)
+		sig := fo.Type().(*types.Signature)
+		if sig.Params().Len() != 0 || sig.Results().Len() != 1 || !isErr(sig.Results().At(0).Type()) {
+			return
+		}
+		ast.Inspect(fd.Body, func(n ast.Node) bool {
+			if b, ok := n.(*ast.BinaryExpr); ok {
+				if call, ok := ast.Unparen(b.X).(*ast.CallExpr); ok && len(call.Args) == 1 {
+					if id, ok := call.Fun.(*ast.Ident); ok && id.Name == "len" {
+						if sel, ok := ast.Unparen(call.Args[0]).(*ast.SelectorExpr); ok && sel.Sel.Name == defsField {
+							single = fd
+						}
+					}
+				}
+				// n := len(e.definitions); n == 0
+			}
+			if as, ok := n.(*ast.AssignStmt); ok && len(as.Rhs) == 1 {
+				if call, ok := ast.Unparen(as.Rhs[0]).(*ast.CallExpr); ok && len(call.Args) == 1 {
+					if id, ok := call.Fun.(*ast.Ident); ok && id.Name == "len" {
+						if sel, ok := ast.Unparen(call.Args[0]).(*ast.SelectorExpr); ok && sel.Sel.Name == defsField {
+							single = fd
+						}
+					}
+				}
+			}
+			return true
+		})
+	})
+	if fd := single; fd != nil {
 		c.Analysed(funcKey(sp, fd))
 		zero, many := false, false
 		ast.Inspect(fd.Body, func(n ast.Node) bool {
